@@ -49,15 +49,23 @@ ExactCoverRun(h, UTab) ==
          /\ UTab[h[1].p])
         => \A i, j \in 1..n : (i < j /\ j - i < W) => Digits(h[i]) # Digits(h[j])
 
-(* Bounded starvation for id-consistent programs: in every window of K attempts every     *)
-(* leaf is reached, K == 2 * ProdMax + 1.                                                 *)
-LeafReachRun(h, IdcTab, KTab, LeafTab) ==
+(* Bounded starvation, also after changes of bounds / identifiers between attempts: in    *)
+(* the current segment (maximal suffix of attempts of one id-consistent program) every    *)
+(* window of K attempts reaches every leaf. K allows for digits left behind by the        *)
+(* programs run earlier at this label: K == 2 * ProdMax(current) * max ProdMax(earlier) + 1. *)
+RECURSIVE SegStart(_, _)
+SegStart(h, n) == IF n > 1 /\ h[n - 1].p = h[n].p /\ h[n - 1].pc = h[n].pc THEN SegStart(h, n - 1) ELSE n
+MaxOf(S) == CHOOSE m \in S : \A x \in S : x <= m
+LeafReachRun(h, IdcT, PmT, PmAnyT, LeafT) ==
     Len(h) >= 3 =>
-        LET n == PrefixLen(h, 1)
-            p == h[1].p IN
-        IdcTab[p] =>
-            LET K == KTab[p] IN
-            \A a \in 1..n : a + K - 1 <= n => LeafTab[p] \subseteq {Digits(h[b]) : b \in a..(a + K - 1)}
+        LET e == Len(h)
+            s == SegStart(h, e)
+            p == h[e].p IN
+        IdcT[p] =>
+            LET stale == MaxOf({1} \cup {PmAnyT[h[i].p] : i \in 1..(s - 1)})
+                K == 2 * PmT[p] * stale + 1 IN
+            (e - s + 1 >= K) => LeafT[p] \subseteq {Digits(h[b]) : b \in (e - K + 1)..e}
+
 (* the same without the id-consistency hypothesis (fails on the pinned design: DESIGN 8 #14) *)
 MaxC(P, n) == LET S == {P[x].c : x \in {y \in DOMAIN P : Len(y) = n - 1}} IN CHOOSE m \in S : \A z \in S : z <= m
 ProdMaxAny(P) == LET RECURSIVE Pm(_)
@@ -73,7 +81,8 @@ LeafReachAnyRun(h, KAnyTab, LeafTab) ==
 (* constant tables over a sequence of programs (TLC evaluates constant definitions once) *)
 UniformTab(Progs) == [i \in 1..Len(Progs) |-> Uniform(Progs[i])]
 IdcTab(Progs)     == [i \in 1..Len(Progs) |-> IdConsistent(Progs[i])]
-KTab(Progs)       == [i \in 1..Len(Progs) |-> IF IdConsistent(Progs[i]) THEN 2 * ProdMax(Progs[i]) + 1 ELSE 0]
+PmTab(Progs)      == [i \in 1..Len(Progs) |-> IF IdConsistent(Progs[i]) THEN ProdMax(Progs[i]) ELSE 0]
+PmAnyTab(Progs)   == [i \in 1..Len(Progs) |-> ProdMaxAny(Progs[i])]
 KAnyTab(Progs)    == [i \in 1..Len(Progs) |-> 2 * ProdMaxAny(Progs[i]) + 1]
 LeafTab(Progs)    == [i \in 1..Len(Progs) |-> Leaves(Progs[i])]
 =============================================================================
